@@ -505,6 +505,82 @@ def check_forest_emission(rep, prog):
     return n
 
 
+def check_table_lifecycle(rep, prog):
+    """R16g: every container member of ForestIndex is filled on the construction path, or - if it is filled lazily by another member function - every
+    member function that reads it calls that function first (typestate: no read of a table that may not have been built yet)"""
+    allm = [f for f in prog.functions if f.fref.get('rec') == CLS and not f.implicit and f.body is not None]
+    total = 0
+    for rid in sorted(set(f.j.get('rec_id') for f in allm if f.j.get('rec_id') is not None)):
+        total += _table_lifecycle_one(rep, prog, [f for f in allm if f.j.get('rec_id') == rid])
+    return total
+
+
+def _table_lifecycle_one(rep, prog, members):
+    if not members:
+        return 0
+    byid = {f.fref_id: f for f in members}
+    rec = prog.records[members[0].j['rec_id']] if members[0].j.get('rec_id') is not None else None
+    if rec is None:
+        return 0
+    n = 0
+    ctors = [f for f in members if f.fref.get('ctor') and not (f.fref.get('copy_ctor') or f.fref.get('move_ctor'))]
+    for fld in rec.get('fields', []):
+        ft = prog.base_type(prog.vars[fld]['ty']) or {}
+        if (ft.get('rec') or '') not in ('std::map', 'std::vector', 'std::unordered_map'):
+            continue
+
+        def writes(f):
+            for d in f.walk():
+                if d.k == 'CXXMemberCallExpr' and d.callee and d.callee['name'] in ('emplace', 'emplace_hint', 'insert', 'push_back', 'emplace_back', 'resize', 'assign') and \
+                        ex.var_of(d.object_arg()) == fld:
+                    return True
+                if d.k in ('BinaryOperator', 'CXXOperatorCallExpr') and d.op == '=':
+                    ops = d.c if d.k == 'BinaryOperator' else d.c[1:]
+                    l = ops[0].strip_all() if ops else None
+                    if l is not None and l.k == 'CXXOperatorCallExpr' and l.op == '[]' and len(l.c) == 3 and ex.var_of(l.c[1]) == fld:
+                        return True
+            return False
+        writers = [f for f in members if writes(f) and not (f.fref.get('copy_ctor') or f.fref.get('move_ctor') or f.fref.get('copy_assign') or f.fref.get('move_assign'))]
+        if not writers:
+            continue
+        wids = {f.fref_id for f in writers}
+
+        def calls_writer(f, depth=0):
+            cs = ex.callees_of(f)
+            if cs & wids:
+                return True
+            return depth < 3 and any(calls_writer(byid[c], depth + 1) for c in cs if c in byid and c != f.fref_id)
+        eager = bool(ctors) and all(f.fref_id in wids or calls_writer(f) for f in ctors)
+        n += 1
+        what = 'the table `%s` is built before any member function reads it' % prog.vars[fld]['name']
+        if eager:
+            rep.ok('R16g', ctors[0].body, ctors[0], what, 'filled on every construction path')
+            continue
+        bad = []
+        for f in members:
+            if f.fref_id in wids or f.fref.get('ctor') or f.fref.get('copy_assign') or f.fref.get('move_assign'):
+                continue
+            reads = [d for d in f.walk() if (d.k == 'CXXMemberCallExpr' and d.callee and d.callee['name'] in ('at', 'find', 'count', 'begin', 'end', 'size') and
+                                              ex.var_of(d.object_arg()) == fld) or
+                     (d.k == 'CXXOperatorCallExpr' and d.op == '[]' and len(d.c) == 3 and ex.var_of(d.c[1]) == fld)]
+            if not reads:
+                continue
+            wcalls = [d for d in f.walk() if d.k in ex.CALL_KINDS and d.j.get('callee') in wids]
+            for r_ in reads:
+                if any(c.is_ancestor_of(r_) for c in [x.enclosing('IfStmt') for x in wcalls] if c is not None):
+                    continue      # the emptiness test that triggers the build
+                if not any(f.cfg.reaches(c, r_) and not f.cfg.reaches(r_, c) for c in wcalls):
+                    bad.append((f, r_))
+        if bad:
+            f, r_ = bad[0]
+            rep.violation('R16g', r_, f, what, '`%s` is filled lazily by %s, but %s reads it (`%s`) without building it first: on a fresh object the look-up fails '
+                          '(map::at throws) or answers from an empty table' % (prog.vars[fld]['name'], ', '.join(sorted(w.g.split('::')[-1] for w in writers)), f.g.split('::')[-1], r_.text(30)),
+                          key='R16g|%s|%s' % (prog.vars[fld]['name'], f.g))
+        else:
+            rep.ok('R16g', writers[0].body, writers[0], what, 'lazily built; every reader builds it first')
+    return n
+
+
 def run_on(rep, prog):
     n = 0
     for fn in prog.fns(CLS + '::create_index'):
@@ -515,6 +591,7 @@ def run_on(rep, prog):
     check_forest_emission(rep, prog)
     c17.check_copy_ops(rep, prog, CLS, 'R16d')
     c04.check_forest_order(rep, prog)
+    check_table_lifecycle(rep, prog)
     from . import c07
     c07.r07g(rep, prog, only_files=('forestindex', 'spanning_forest'))
     c07.r07h(rep, prog, only_files=('forestindex', 'spanning_forest'))
@@ -529,6 +606,7 @@ def run(rep, tier):
     rep.rule('R16d', 'copy operations copy every member', floor=2)
     rep.rule('R16f', 'spanning_forest emission sites are guarded and paired with the unreached/queue bookkeeping', floor=1)
     rep.rule('R16e', 'index order is address-free', floor=1)
+    rep.rule('R16g', 'index tables are built before they are read', floor=2)
     rep.rule('R07j', 'the forest is built without recursion along the graph (any graph size)', floor=0)
     rep.rule('R07h', 'sizes used while building the index do not wrap for the empty graph (ForestIndex of the empty graph: c = 0, dimension 0)', floor=0)
     rep.rule('R07g', 'the index construction keeps no function-local static state (each ForestIndex is built from its own graph only)', floor=0)
